@@ -170,7 +170,7 @@ theorem pixLoop_safe (pix : Array UInt8) (n k : Nat) (hn : n ≤ 64) (cnt off : 
       · rfl
 
 theorem rowLoop_safe (pix : Array UInt8) (width stride n k : Nat) (hn : n ≤ 64)
-    (rows y : Nat) (s : LoopSt) (h : Safe f s) (hok : s.ok = true)
+    (rows y : Nat) (s : LoopSt) (h : Safe f s) (hok : s.ok = true) (hlen : pix.size < 9223372036854775808)
     (hpix : ∀ y', y ≤ y' → y' < y + rows → y' * stride + k * width ≤ pix.size) :
     Safe f (rowLoop pix width (stride : Int) n k rows y s) := by
   induction rows generalizing y s with
@@ -183,9 +183,10 @@ theorem rowLoop_safe (pix : Array UInt8) (width stride n k : Nat) (hn : n ≤ 64
     · simp only [↓reduceIte]
       have room := r2 hrok
       have hrow := hpix y (by omega) (by omega)
-      have hcast : (y : Int) * (stride : Int) = ((y * stride : Nat) : Int) := by rw [Int.natCast_mul]
-      have hno : ¬ ((y : Int) * (stride : Int) < 0 ∨
-          (y : Int) * (stride : Int) + ((k * width : Nat) : Int) > (pix.size : Int)) := by
+      have hcast : wrapInt64 ((y : Int) * (stride : Int)) = ((y * stride : Nat) : Int) := by
+        rw [← Int.natCast_mul]; exact wrapInt64_natCast _ (by omega)
+      have hno : ¬ (wrapInt64 ((y : Int) * (stride : Int)) < 0 ∨
+          wrapInt64 ((y : Int) * (stride : Int)) + ((k * width : Nat) : Int) > (pix.size : Int)) := by
         rw [hcast]; omega
       simp only [hno, ↓reduceIte]
       have hs1 : Safe f ⟨(Uncomp.reserve s 1).e.set (Uncomp.reserve s 1).ej 0, (Uncomp.reserve s 1).w,
@@ -194,8 +195,8 @@ theorem rowLoop_safe (pix : Array UInt8) (width stride n k : Nat) (hn : n ≤ 64
         have := r1.wok
         rw [hrok] at this
         exact this
-      have hp := pixLoop_safe pix n k hn width ((y : Int) * (stride : Int)).toNat _ hs1 rfl
-      cases hpok : (pixLoop pix n k width ((y : Int) * (stride : Int)).toNat
+      have hp := pixLoop_safe pix n k hn width (wrapInt64 ((y : Int) * (stride : Int))).toNat _ hs1 rfl
+      cases hpok : (pixLoop pix n k width (wrapInt64 ((y : Int) * (stride : Int))).toNat
           ⟨(Uncomp.reserve s 1).e.set (Uncomp.reserve s 1).ej 0, (Uncomp.reserve s 1).w,
             (Uncomp.reserve s 1).ej + 1, true⟩).ok
       · simpa [hpok] using hp
@@ -267,7 +268,7 @@ theorem finish_safe (s : LoopSt) (hs : Safe f s) :
 (all stores in range), the status is `ok` or `writeError`, and it is `writeError` exactly when the
 failing `Write` call was made — which is then the last call. -/
 theorem encode_safe (e : Enc) (w : Writer) (pix : Array UInt8) (width height stride : Nat) (depth colorType : UInt8)
-    (he : Usable e) (hw : WOk f w true)
+    (he : Usable e) (hw : WOk f w true) (hlen : pix.size < 9223372036854775808)
     (hw2 : width ≤ 0xFFFFFF) (hh2 : height ≤ 0xFFFFFF)
     (hd : depth = 8 ∨ depth = 16) (hc : colorType = 1 ∨ colorType = 2 ∨ colorType = 3)
     (hpix : ∀ y', y' < height → y' * stride + (loopParams depth colorType).2 * width ≤ pix.size) :
@@ -286,7 +287,7 @@ theorem encode_safe (e : Enc) (w : Writer) (pix : Array UInt8) (width height str
     refine ⟨h, ?_, hw⟩
     show eiFirst ≤ 65528
     decide
-  exact rowLoop_safe pix width stride _ _ hn64 height 0 _ (h0 _ hi) rfl (fun y' _ h2 => hpix y' (by omega))
+  exact rowLoop_safe pix width stride _ _ hn64 height 0 _ (h0 _ hi) rfl hlen (fun y' _ h2 => hpix y' (by omega))
 
 /-- Rejected arguments: an error status, the encoder and the writer untouched (nothing written). -/
 theorem encode_rejects (e : Enc) (w : Writer) (pix : Array UInt8) (width height stride : Int) (depth colorType : UInt8)
